@@ -3,8 +3,21 @@
 //! Oracles: a wait that reports "timed out" never returns before call + d; every timed wait returns
 //! (hang detector); without injected stalls it returns no later than d + 1 ms (+ eps) after the call.
 use mayv::*;
+use std::alloc::{GlobalAlloc, Layout, System};
 use std::sync::Arc;
 use std::time::Duration;
+
+/// never reuse an address: the virtual ThreadPark token of the harness is keyed by the address of the ThreadPark, a
+/// late unpark of a Blocker that is gone must not reach a later one that happens to get the same address
+struct Leak;
+unsafe impl GlobalAlloc for Leak {
+    unsafe fn alloc(&self, l: Layout) -> *mut u8 {
+        System.alloc(l)
+    }
+    unsafe fn dealloc(&self, _p: *mut u8, _l: Layout) {}
+}
+#[global_allocator]
+static GLOBAL: Leak = Leak;
 
 fn envs(k: &str, d: &str) -> String {
     std::env::var(k).unwrap_or_else(|_| d.into())
@@ -22,12 +35,52 @@ struct Shared {
     tx: may::sync::mpsc::Sender<u32>,
     mx: Arc<may::sync::Mutex<u32>>,
     cv: Arc<may::sync::Condvar>,
+    mtx: may::sync::mpmc::Sender<u32>,
+    mrx: may::sync::mpmc::Receiver<u32>,
 }
 
-/// one timed call; returns (timed_out, event_seen)
-fn timed_call(api: &str, d: u64, sh: &Shared, rx: &Option<may::sync::mpsc::Receiver<u32>>) -> bool {
+fn nap(d: u64) {
+    if may::coroutine::is_coroutine() {
+        may::coroutine::sleep(Duration::from_nanos(d));
+    } else {
+        mayv::ctx().sleep_ns(d);
+    }
+}
+
+/// one timed call; returns timed_out; `woken` is set when the call may have been woken without data before its
+/// deadline (the deadline loops then park for the full timeout again: the bound is 2 d + 1 ms, see C08_callers_code_loop_*)
+fn timed_call(api: &str, d: u64, sh: &Shared, rx: &Option<may::sync::mpsc::Receiver<u32>>, woken: &mut bool) -> bool {
     let dur = Duration::from_nanos(d);
     match api {
+        "mpmc" => sh.mrx.recv_timeout(dur).is_err(),
+        "cq" => {
+            // Cqueue::poll(Some(d)): one arm may deliver an event, one may finish without an event (the poller is woken
+            // without data), one never ends by itself (the cqueue is never Finished)
+            let c = mayv::ctx();
+            let offs = [d / 2, d, d + 700_000, 2 * d + 2_500_000, 20_000_000];
+            let e_norm = offs[(c.rand() % 5) as usize];
+            let e_done = offs[(c.rand() % 5) as usize];
+            let with_norm = c.rand() % 2 == 0;
+            let with_done = c.rand() % 2 == 0;
+            *woken = with_done && e_done <= d;
+            may::cqueue::scope(|cq| {
+                if with_norm {
+                    cq.add(0, move |es| {
+                        nap(e_norm);
+                        es.send(0);
+                    });
+                }
+                if with_done {
+                    cq.add(1, move |_es| {
+                        nap(e_done);
+                    });
+                }
+                cq.add(2, move |_es| {
+                    may::coroutine::sleep(Duration::from_secs(3600));
+                });
+                matches!(cq.poll(Some(dur)), Err(may::cqueue::PollError::Timeout))
+            })
+        }
         "sleep" => {
             may::coroutine::sleep(dur);
             true
@@ -57,15 +110,24 @@ fn main() {
     let nact = envn("MAYV_ACTORS", 3) as usize;
     let rounds = envn("MAYV_ROUNDS", 3);
     run(cfg, move |ctx| {
+        // initialise the runtime from this thread alone: its lazy initialisation (a std Once) must not be entered by two
+        // scenario threads at once - the second would wait for the Once in the OS while it holds the baton
+        if api_sel == "cq" {
+            let h = unsafe { may::coroutine::Builder::new().name("warmup".into()).spawn(|| {}).unwrap() };
+            let _ = h.join();
+        }
         let (tx, rx) = may::sync::mpsc::channel::<u32>();
+        let (mtx, mrx) = may::sync::mpmc::channel::<u32>();
         let sh = Shared {
+            mtx,
+            mrx,
             sem: Arc::new(may::sync::Semphore::new(0)),
             flag: Arc::new(may::sync::SyncFlag::new()),
             tx,
             mx: Arc::new(may::sync::Mutex::new(0)),
             cv: Arc::new(may::sync::Condvar::new()),
         };
-        let apis_all = ["sleep", "sem", "chan", "cond", "park", "flag"];
+        let apis_all = ["sleep", "sem", "chan", "cond", "park", "flag", "cq", "mpmc"];
         let mut rx_opt = Some(rx);
         let mut joins: Vec<Box<dyn FnOnce()>> = vec![];
         let mut used: Vec<&'static str> = vec![];
@@ -92,15 +154,23 @@ fn main() {
                     }
                     let t0 = c.now();
                     c.log("timed.call", a as u64, d, None);
-                    let timed_out = timed_call(api, d, &sh2, &rxa);
+                    let mut woken = false;
+                    let timed_out = timed_call(api, d, &sh2, &rxa, &mut woken);
                     let t1 = c.now();
                     c.log("timed.ret", a as u64, timed_out as u64, None);
                     let el = t1 - t0;
                     if timed_out && api != "park" && el < d {
                         c.fail(format!("{api}({d} ns) in {} reported a timeout after only {el} ns", if may::coroutine::is_coroutine() { "coroutine" } else { "thread" }));
                     }
-                    if !stalls && el > d + 1_000_000 + 200_000 && api != "cond" {
+                    if !stalls && el > d + 1_000_000 + 200_000 && api != "cond" && !woken {
                         c.fail(format!("{api}({d} ns) returned only after {el} ns although nothing delayed it"));
+                    }
+                    // the deadline loops park for the full timeout again after a wake-up without data: 2 d + 1 ms
+                    if !stalls && woken && el > 2 * d + 1_000_000 + 200_000 {
+                        c.fail(format!("{api}({d} ns) returned only after {el} ns although nothing delayed it (woken without data once)"));
+                    }
+                    if !stalls && woken && el > d + 1_000_000 + 200_000 {
+                        println!("NOTE late-timeout {api}({d} ns) returned after {el} ns: woken without data before the deadline, parked for the full timeout again");
                     }
                 }
             };
@@ -119,12 +189,16 @@ fn main() {
         // the event source: posts / sends / notifies at random virtual times around the deadlines
         let sh3 = sh.clone();
         let nev = envn("MAYV_EVENTS", 3);
+        let nkinds: u64 = if api_sel == "mpmc" { 5 } else { 4 };
         let ev = ctx.spawn("ev", move || {
             let c = mayv::ctx();
             for _ in 0..nev {
                 let dt = [0u64, 500_000, 1_000_000, 1_500_000, 2_000_000, 10_000_000][(c.rand() % 6) as usize];
                 c.sleep_ns(dt);
-                match c.rand() % 4 {
+                match c.rand() % nkinds {
+                    4 => {
+                        let _ = sh3.mtx.send(9);
+                    }
                     0 => sh3.sem.post(),
                     1 => {
                         let _ = sh3.tx.send(7);
